@@ -76,7 +76,7 @@ fn path_classes() -> Vec<(usize, usize, usize)> {
     ]
 }
 
-fn enumerate_c01(cli: &Cli, r: &Report) {
+fn enumerate_c01(cli: &Cli, r: &Report, prop: &str) {
     let mut index = 0u64;
     let sizes: &[u32] = if cli.thorough { &[0, 1, 2, 3, 4] } else { &[0, 1, 2, 3] };
     let counts: &[u32] = if cli.thorough { &[0, 1, 2, 3, 5] } else { &[0, 1, 2, 3] };
@@ -108,7 +108,7 @@ fn enumerate_c01(cli: &Cli, r: &Report) {
                                 // no panic
                                 index += 1;
                                 if cli.mine(index) {
-                                    check(r, "C01", &base, index);
+                                    check(r, prop, &base, index);
                                 }
                                 // panic points on the caller
                                 let total_calls = if base.test { 1 } else { (s.unwrap_or(4) * n).min(9) };
@@ -140,7 +140,7 @@ fn enumerate_c01(cli: &Cli, r: &Report) {
                                         c.panic = Some(PanicPoint { site, thread: 0, nth });
                                         index += 1;
                                         if cli.mine(index) {
-                                            check(r, "C01", &c, index);
+                                            check(r, prop, &c, index);
                                         }
                                     }
                                 }
@@ -271,7 +271,7 @@ fn main() {
         r.emit();
     }
     match prop.as_str() {
-        "C01" => enumerate_c01(&cli, &r),
+        "C01" | "C08" => enumerate_c01(&cli, &r, &prop),
         "C02" => enumerate_c02(&cli, &r),
         "C03" => enumerate_c03(&cli, &r),
         p => panic!("unknown property {p}"),
